@@ -432,6 +432,45 @@ fn many_artifacts_leg(acc: &mut Acc) {
     }
 }
 
+/// A dissenting link that carries two signatures: a foreign key's first, its functionary's own
+/// second (a counter-signed link). It is a validly signed link of an authorised functionary like
+/// any other; its dissent counts.
+fn counter_signed_leg(acc: &mut Acc) {
+    let f = fns();
+    let (owner, foreign) = (keys::get("ed6"), keys::get("ed5"));
+    let dir = util::fresh_dir("c07c");
+    let lay = world::sign_layout(world::layout(vec![world::step("s", 2, &f[..3])], vec![], &f[..3], world::far_future()), &[owner]);
+    for v in [1usize, 2, 11, 12, 14] {
+        for order in ["own-first", "foreign-first", "foreign-own-foreign"] {
+            for e in std::fs::read_dir(&dir).unwrap().flatten() {
+                let _ = std::fs::remove_file(e.path());
+            }
+            for k in &f[..2] {
+                world::write(&dir, &world::link_file("s", k), &world::block_text(&world::sign_link(link_for(0), &[k])));
+            }
+            let signers: Vec<&Key> = match order {
+                "own-first" => vec![f[2], foreign],
+                "foreign-first" => vec![foreign, f[2]],
+                _ => vec![foreign, f[2], keys::get("ec1")],
+            };
+            world::write(&dir, &world::link_file("s", f[2]), &world::block_text(&world::sign_link(link_for(v), &signers)));
+            acc.states += 1;
+            acc.nontrivial += 1;
+            for site in ["A", "C"] {
+                for (script, verdict) in run_orders_at(&dir, &lay, acc, site) {
+                    acc.outcome(&format!("counter-signed|{}", verdict.tag()));
+                    let w = || json!({"kind": "counter-signed", "variation": VARIATIONS[v], "signature_order": order, "site": site, "schedule": script});
+                    match &verdict {
+                        Verdict::Ok(_) => acc.violation(&format!("accepted-dissent:counter-signed-link:{order}"), &format!("a step was accepted although the third functionary's validly signed link ({order}) dissents ({})", VARIATIONS[v]), w),
+                        Verdict::Panic(l, m) => acc.violation(&format!("panic:{l}"), m, w),
+                        Verdict::Err(_) => {}
+                    }
+                }
+            }
+        }
+    }
+}
+
 fn delegated_leg(acc: &mut Acc) {
     let (a, b, inner_f, owner) = (keys::get("ed1"), keys::get("ed2"), keys::get("ed5"), keys::get("ed6"));
     let dir = util::fresh_dir("c07d");
@@ -623,8 +662,9 @@ pub fn run(tier: Tier) -> i32 {
     two_ids_leg(&mut acc);
     pass_through_leg(&mut acc);
     many_artifacts_leg(&mut acc);
+    counter_signed_leg(&mut acc);
     c.acc = acc;
-    c.rule = "state = vector of per-link variations (43 kinds, the last 14 for k = 2 only: none; the path of one entry re-spelled (blank / newline / NUL / slash appended, blank or ./ prepended, upper case) in a link that was read from text before it was signed; in materials or products: a second algorithm added with one of two values, other path, last / first digest byte, digest truncated by a byte / extended by a byte / of no bytes, other algorithm, second algorithm added, extra entry sorting last / first, missing last / first entry, empty map) for k authorised valid links, optionally plus a dissenting link by a key outside the key table or a tampered one; transition = change one link's variation; every state runs in_toto_verify for thresholds 2..min(k,3), with the step alone, next to a single-party step (before it, after it, after a threshold-0 step) and next to a second multi-party step whose links agree (before it, after it) under every permutation of the reference-link choice (site C); plus two links with 40 materials and 40 products that differ at one of 9 sorted positions (first, around 16 and 32, last) in one of 4 ways; plus pass-through steps (the agreeing links record one map as materials and as products, or nothing on either side; 10 kinds of dissent in the products only; 2 and 3 links, each as the dissenter; every order at sites A and C); plus one functionary key under two ids with a link under each, one dissenting (8 variations x which id dissents x thresholds 2, 3 x every order at sites A and C); plus a delegated multi-party step (two functionaries, two-step sub-layouts) with a dissent at each of 6 places, 4 of them visible in the summaries; non-trivial = vectors that are not all equal".into();
+    c.rule = "state = vector of per-link variations (43 kinds, the last 14 for k = 2 only: none; the path of one entry re-spelled (blank / newline / NUL / slash appended, blank or ./ prepended, upper case) in a link that was read from text before it was signed; in materials or products: a second algorithm added with one of two values, other path, last / first digest byte, digest truncated by a byte / extended by a byte / of no bytes, other algorithm, second algorithm added, extra entry sorting last / first, missing last / first entry, empty map) for k authorised valid links, optionally plus a dissenting link by a key outside the key table or a tampered one; transition = change one link's variation; every state runs in_toto_verify for thresholds 2..min(k,3), with the step alone, next to a single-party step (before it, after it, after a threshold-0 step) and next to a second multi-party step whose links agree (before it, after it) under every permutation of the reference-link choice (site C); plus a dissenting link that carries a foreign signature before (after, around) its functionary's own; plus two links with 40 materials and 40 products that differ at one of 9 sorted positions (first, around 16 and 32, last) in one of 4 ways; plus pass-through steps (the agreeing links record one map as materials and as products, or nothing on either side; 10 kinds of dissent in the products only; 2 and 3 links, each as the dissenter; every order at sites A and C); plus one functionary key under two ids with a link under each, one dissenting (8 variations x which id dissents x thresholds 2, 3 x every order at sites A and C); plus a delegated multi-party step (two functionaries, two-step sub-layouts) with a dissent at each of 6 places, 4 of them visible in the summaries; non-trivial = vectors that are not all equal".into();
     c.bound_completed = format!("complete variation vectors for {} (BFS reaches every vector)", bounds.join(", "));
     c.assume("all k links are validly signed by authorised keys of the key table; no rules (isolates C03)");
     c.finish()
@@ -634,6 +674,11 @@ pub fn replay(case: &Value) -> Value {
     if case["kind"] == "delegated" {
         let mut acc = Acc::new();
         delegated_leg(&mut acc);
+        return json!({"violation": acc.violations.keys().next()});
+    }
+    if case["kind"] == "counter-signed" {
+        let mut acc = Acc::new();
+        counter_signed_leg(&mut acc);
         return json!({"violation": acc.violations.keys().next()});
     }
     if case["kind"] == "many-artifacts" {
